@@ -16,20 +16,35 @@
 (***************************************************************************)
 EXTENDS Naturals, Sequences
 
-CONSTANTS Contexts, MaxLen
+CONSTANTS Contexts, MaxLen, MaxEdits
 VARIABLES hist, out, inputs
 vars == <<hist, out, inputs>>
 
-Init == hist = <<>> /\ out = "none" /\ inputs = [c \in Contexts |-> "pristine"]
+(* hist: sequence of <<"eval", c>> / <<"edit", c>>.  inputs[c] = number of edits the CALLER has made to the document of c. *)
+(* Only the caller changes inputs (action Edit); the expected output of an evaluation is the fresh result for the context  *)
+(* in its CURRENT edit state - a parsed expression or Selector must not remember the tree it saw before.                   *)
+Init == hist = <<>> /\ out = <<"none", 0>> /\ inputs = [c \in Contexts |-> 0]
 Evaluate(c) == /\ Len(hist) < MaxLen
-               /\ hist' = Append(hist, c)
-               /\ out' = c
+               /\ hist' = Append(hist, <<"eval", c>>)
+               /\ out' = <<c, inputs[c]>>
                /\ UNCHANGED inputs
-Next == \E c \in Contexts : Evaluate(c)
+Edit(c) == /\ Len(hist) < MaxLen - 1            \* an edit is observable only by a later evaluation
+           /\ hist # <<>>                        \* ... and matters only after an earlier one
+           /\ inputs[c] < MaxEdits
+           /\ \A d \in Contexts : d # c => inputs[d] = 0
+           /\ hist' = Append(hist, <<"edit", c>>)
+           /\ inputs' = [inputs EXCEPT ![c] = @ + 1]
+           /\ UNCHANGED out
+Next == \E c \in Contexts : Evaluate(c) \/ Edit(c)
 Spec == Init /\ [][Next]_vars
 
-(* the output is a function of the last context only *)
-OutputIsFresh == hist # <<>> => out = hist[Len(hist)]
-Pure == \A c \in Contexts : inputs[c] = "pristine"
-InputsNeverChange == [][inputs' = inputs]_vars
+Edits(c) == Len(SelectSeq(hist, LAMBDA h : h = <<"edit", c>>))
+LastEval == LET idx == {i \in 1..Len(hist) : hist[i][1] = "eval"} IN
+              IF idx = {} THEN 0 ELSE CHOOSE i \in idx : \A j \in idx : j <= i
+EditsBefore(c, n) == Len(SelectSeq(SubSeq(hist, 1, n), LAMBDA h : h = <<"edit", c>>))
+(* the output is a function of the context of the last evaluation and of the caller's edits up to then, of nothing else *)
+OutputIsFresh == LastEval # 0 => out = <<hist[LastEval][2], EditsBefore(hist[LastEval][2], LastEval)>>
+(* evaluations never change the caller-visible inputs: they change only through the caller's own edits *)
+Pure == \A c \in Contexts : inputs[c] = Edits(c)
+InputsNeverChange == [][(\E c \in Contexts : Edit(c)) \/ inputs' = inputs]_vars
 =============================================================================
